@@ -305,6 +305,7 @@ static void run_uni(Out& out, Rng& g, const DGroup& G, double d, int join, doubl
     std::string payload = "S " + hex_u64((uint64_t)S) + " K " + std::to_string(f.K) + " GUARD " + hex_i128((i128)guard << f.K) + " G " +
                           ser_group(G, f) + " G2 " + ser_group(G2, f) + " R1 " + ser_group(R1, f) + " R2 " + ser_group(R2, f) +
                           " P " + ser_points(pts);
+    payload += " PARAM " + hex_dbl(d) + " " + std::to_string(join) + " " + hex_dbl(tol) + " 1";
     std::string id = out.add("uni", payload);
     out.count("uni:scenario:" + scen);
     out.count(std::string("uni:join:") + JOIN_NAME[join]);
